@@ -2,7 +2,8 @@ import os
 from vlib import core, e1
 
 OPS = dict(END=0, CREATE=1, TCREATE0=2, TCREATE1=3, ATTACH=4, INFL_MSG=5, INFL_READ=6, INFL_TIMER=7,
-           SHUT=8, SHUT_B=9, SHUT_W=10, WAIT=11, DESTROY=12, QUIESCE=13, INFL_BUSY=14, GATE_B=15, HOOK_WAITS=16)
+           SHUT=8, SHUT_B=9, SHUT_W=10, WAIT=11, DESTROY=12, QUIESCE=13, INFL_BUSY=14, GATE_B=15, HOOK_WAITS=16,
+           INFL_STUCK=17, INFL_SYNC_BCAST=18)
 FAULTS_CREATE = 'SC_F_CALLOC|SC_F_EPOLL_CREATE|SC_F_PIPE2|SC_F_EPOLL_CTL|SC_F_PTHREAD_CREATE'
 
 
@@ -63,6 +64,14 @@ def scripts():
             for wait in ('WAIT', 'none'):
                 out.append(('hookwait/W%d/%s/%s' % (W, shut.replace(',', '+'), wait), W, '0',
                             ['HOOK_WAITS', 'CREATE', 'TCREATE0'] + shut.split(',') + ([] if wait == 'none' else [wait]) + ['DESTROY']))
+    # an event that stays ready for ever on the last worker while the pool is shut down
+    for W in (1, 2):
+        for shut in ('SHUT', 'SHUT_B,SHUT', 'SHUT_W'):
+            out.append(('stuck/W%d/%s' % (W, shut.replace(',', '+')), W, '0', ['CREATE', 'TCREATE0', 'INFL_STUCK'] + shut.split(',') + ['WAIT', 'DESTROY']))
+    # a worker's synchronous broadcast while slot 0 was never started (threads_create(skip_first) without attach_first)
+    for W in (2, 3):
+        for shut in ('SHUT', 'SHUT_B,SHUT'):
+            out.append(('syncbcast/W%d/%s' % (W, shut.replace(',', '+')), W, '0', ['CREATE', 'TCREATE1', 'INFL_SYNC_BCAST'] + shut.split(',') + ['WAIT', 'DESTROY']))
     # resource failures during creation / thread start (fault menu: each call may fail; bound = number of failures)
     for W in (1, 2):
         out.append(('fail/W%d/create-only' % W, W, FAULTS_CREATE, ['CREATE', 'DESTROY']))
@@ -89,7 +98,7 @@ def plan(tier, vs):
         if f[0] == 'fail':
             jobs.append((name, 1 if tier == 'quick' else 2, 0 if tier == 'quick' else 1))
             continue
-        if f[0] in ('attach-refused', 'hookwait'):
+        if f[0] in ('attach-refused', 'hookwait', 'stuck', 'syncbcast'):
             jobs.append((name, 1 if tier == 'quick' else 2, 1 if tier == 'quick' else 2))
             continue
         if f[0] == 'busy':
